@@ -666,7 +666,31 @@ theorem remapKind_leaf_spec (n : Nat) (k : ItemKind) (hk : LeafK k) (s : AggStat
         simp only [Types.unfoldKind] at hm ⊢
         obtain ⟨x, hx, rfl⟩ := Option.map_eq_some_iff.1 hm
         rw [c x ⟨m, hx⟩]; rfl
-    | type _ => cases hk
+    | type ty =>
+      cases ty with
+      | func f =>
+        simp only [remapKind, bind_ok, run_pure, Except.ok.injEq, Prod.mk.injEq] at h
+        obtain ⟨f', s1, h1, rfl, rfl⟩ := h
+        obtain ⟨a, b, c⟩ := remapFunc_spec hW hs n f s f' s1 hI h1
+        refine ⟨a, b, trivial, fun t ⟨m, hm⟩ => ?_⟩
+        cases m with
+        | zero => simp [Types.unfoldKind] at hm
+        | succ m =>
+          simp only [Types.unfoldKind] at hm ⊢
+          obtain ⟨x, hx, rfl⟩ := Option.map_eq_some_iff.1 hm
+          rw [c x ⟨m, hx⟩]; rfl
+      | value v =>
+        simp only [remapKind, bind_ok, run_pure, Except.ok.injEq, Prod.mk.injEq] at h
+        obtain ⟨v', s1, h1, rfl, rfl⟩ := h
+        obtain ⟨a, b, c⟩ := (remapVT_spec hW hs n).1 v s v' s1 hI h1
+        refine ⟨a, b, trivial, fun t ⟨m, hm⟩ => ?_⟩
+        cases m with
+        | zero => simp [Types.unfoldKind] at hm
+        | succ m =>
+          simp only [Types.unfoldKind] at hm ⊢
+          obtain ⟨x, hx, rfl⟩ := Option.map_eq_some_iff.1 hm
+          rw [c x ⟨m, hx⟩]; rfl
+      | _ => cases hk
     | «instance» _ => cases hk
     | component _ => cases hk
     | module _ => cases hk
